@@ -118,6 +118,20 @@ run_cmd do
 """
 
 
+def run_leanchecker(pid):
+    """thorough tier: independent re-check of the compiled .olean files of the property's import closure"""
+    mods = []
+    for path in _import_closure(f"CoolerModel.Props.{pid}"):
+        rel = os.path.relpath(path, LEAN)[:-5]
+        mods.append(rel.replace(os.sep, "."))
+    t0 = time.time()
+    r = subprocess.run(["lake", "env", "leanchecker"] + mods, cwd=LEAN, capture_output=True, text=True)
+    if r.returncode != 0:
+        sys.stderr.write(r.stdout[-3000:] + r.stderr[-3000:])
+        raise Infra("leanchecker rejected the compiled proofs")
+    return {"modules": len(mods), "seconds": round(time.time() - t0, 1)}
+
+
 def ensure_lean(pid):
     """`lake build` of the driver and of the property's theorem module (the kernel re-checks whatever
     changed), forbidden-token grep over all Lean sources, axiom audit of the property's theorems
@@ -440,6 +454,13 @@ def _main_check(pid, tier, seed, replay=None):
     if bad_ax:
         print(f"INFRA: non-standard axioms in {[t['name'] for t in bad_ax]}", file=sys.stderr)
         return 2
+    lc = None
+    if tier == "thorough" and not replay:
+        try:
+            lc = run_leanchecker(pid)
+        except Infra as e:
+            print(f"INFRA: {e}", file=sys.stderr)
+            return 2
     names = {t["name"].split(".", 2)[2] for t in thms}
     missing = [t for t in getattr(mod, "THEOREMS", []) if t not in names]
     if missing:
@@ -557,6 +578,7 @@ def _main_check(pid, tier, seed, replay=None):
         "known_findings_hit": dict(known),
         "lean_build_and_audit_s": round(lean_s, 2),
         "lean_source_hash": lean_hash(),
+        "leanchecker": lc if lc else "not run in this tier",
     }
     write_evidence(pid, tier, seed, "proof", coverage, getattr(mod, "ASSUMPTIONS", []), wall, len(viol_lines))
     for l in viol_lines:
